@@ -19,7 +19,8 @@ from harness import pool
 from harness import store
 
 PROP = 'C01'
-FORMS = ('function', 'class', 'classmethod', 'callable_instance', 'partial', 'dataclass')
+FORMS = ('function', 'class', 'classmethod', 'bound_method', 'callable_instance', 'partial',
+         'dataclass')
 BUILDABLES = ('Config',)
 
 
